@@ -68,6 +68,41 @@ FileOf(s, roots) == [order |-> s.order, succ |-> Restrict(s.succ, Reach(s, roots
 PickleAccepts(file, t, levels) ==      \* levels=TRUE: add_var(var, i) must agree with the receiver
   ~levels \/ \A i \in 1..Len(file.order) : LevelOf(t, file.order[i]) = i - 1
 
+DddmpMapsRoots == TRUE       \* negative configuration: the file's root ids are handed over unmapped (the defect repaired in /repo)
+
+(* ---- DDDMP load (dd/dddmp.py load): the file lists nodes <<id, level-with-gaps, then, else>>
+   under an arbitrary numbering; levels are re-indexed without gaps, nodes are
+   rebuilt level by level from the bottom with find_or_add, and the root ids
+   are mapped through the same table as the nodes (with their sign) ---- *)
+DddmpFile(s, roots, num, gap) ==     \* num: node -> file id (injective, num[1] = 1); gap: level -> level with gaps (increasing)
+  [nodes |-> {<<num[n], IF n = 1 THEN -1 ELSE gap[s.succ[n][1]], IF n = 1 THEN 0 ELSE num[s.succ[n][3]],
+                IF n = 1 THEN 0 ELSE Sgn(s.succ[n][2]) * num[Abs(s.succ[n][2])]>> : n \in Reach(s, roots \cup {1})},
+   roots |-> {Sgn(r) * num[Abs(r)] : r \in roots},
+   names |-> [l \in {gap[i] : i \in 0..(Len(s.order) - 1)} |-> s.order[(CHOOSE i \in 0..(Len(s.order) - 1) : gap[i] = l) + 1]]]
+RECURSIVE DddmpLevels(_, _, _, _, _)
+DddmpLevels(file, t, old2new, j, umap) ==      \* j: new level, from the bottom up
+  IF j < 0 THEN [s |-> t, umap |-> umap]
+  ELSE LET here == {nd \in file.nodes : nd[3] # 0 /\ old2new[nd[2]] = j}
+           RECURSIVE AddAll(_, _, _)
+           AddAll(tt, todo, um) ==
+             IF todo = {} THEN [s |-> tt, umap |-> um]
+             ELSE LET nd == CHOOSE x \in todo : TRUE
+                      q == um[nd[3]]
+                      p == IF nd[4] < 0 THEN -um[-nd[4]] ELSE um[nd[4]]
+                      f == FindOrAdd(tt, j, p, q)
+                  IN AddAll(f.s, todo \ {nd}, um @@ (nd[1] :> f.r))
+           res == AddAll(t, here, umap)
+       IN DddmpLevels(file, res.s, old2new, j - 1, res.umap)
+LoadDddmp(file, names) ==
+  LET lv == DOMAIN file.names                                   \* the file's (gapped) levels
+      rank(l) == Cardinality({x \in lv : x < l})
+      old2new == [l \in lv |-> rank(l)]
+      order == [i \in 1..Cardinality(lv) |-> file.names[CHOOSE l \in lv : rank(l) = i - 1]]
+      t0 == DeclareSeq(InitMgr(names), order)
+      res == DddmpLevels(file, t0, old2new, Cardinality(lv) - 1, (1 :> 1))
+  IN [s |-> res.s, roots |-> IF DddmpMapsRoots THEN {IF r < 0 THEN -res.umap[-r] ELSE res.umap[r] : r \in file.roots}
+                             ELSE file.roots]
+
 JsonReleasesTemps == TRUE      \* negative configuration MC_CopyLoad_neg overrides this with FALSE
 
 (* ---- JSON load: temporary +1 per loaded node, released at the end ---- *)
@@ -121,7 +156,22 @@ Transfer(kind, k, a) ==
        [] kind = "json" -> PutD(k, LoadJson(file, dst, u))
   /\ UNCHANGED <<src, hs>>
   /\ last' = <<kind, k, a>>
+(* dddmp.load returns a NEW manager: it replaces dst (whose handles must be empty) *)
+Numberings(N) == LET n == Cardinality(N) IN     \* identity and the reversed numbering of the non-terminal nodes
+  {[x \in N |-> x], [x \in N |-> IF x = 1 THEN 1 ELSE n + 2 - (CHOOSE i \in 2..(n + 1) : Cardinality({y \in N \ {1} : y <= x}) = i - 1)]}
+Gaps == {[l \in 0..(Len(NameSeq) - 1) |-> l], [l \in 0..(Len(NameSeq) - 1) |-> 2 * l + 1]}
+DoDddmp(a, b) ==
+  LET roots == {ValOf(hs, a), ValOf(hs, b)} \ {1, -1}
+      N == Reach(src, roots \cup {1}) IN
+  /\ roots # {} /\ \A k \in Slots : hd[k] = 0
+  /\ \E num \in Numberings(N), gap \in Gaps :
+       LET file == DddmpFile(src, roots, num, gap)
+           res == LoadDddmp(file, NameSeq)
+       IN /\ dst' = res.s
+          /\ last' = <<"dddmp", roots, res.roots>>
+  /\ UNCHANGED <<src, hs, hd>>
 Next == \/ \E k \in Slots, nm \in Names : SrcVar(k, nm) \/ DstVar(k, nm)
+        \/ \E a, b \in SymOf(hs) : DoDddmp(a, b)
         \/ \E k \in Slots : \E g, u, v \in SymOf(hs) : SrcOp(k, g, u, v)
         \/ \E k \in Slots : DstDrop(k)
         \/ DstGC
@@ -130,13 +180,17 @@ Bound == /\ Cardinality(DOMAIN src.succ) <= MaxNodes /\ Cardinality(DOMAIN dst.s
          /\ TLCGet("level") <= MaxDepth
 
 InvSrc == Canonical(src) /\ RefExact(src, LedgerOf(hs))
-InvDst == Canonical(dst) /\ DenInjective(dst) /\ RefExact(dst, LedgerOf(hd))
+InvDst == /\ Canonical(dst) /\ DenInjective(dst)
+          /\ (RefExact(dst, LedgerOf(hd)) \/ last[1] = "dddmp")     \* the manager returned by dddmp.load holds no user references yet
 StepOK ==
   LET a == last' IN
   IF a[1] \in {"copy", "pickle_levels", "pickle_names", "json"}
   THEN /\ IsRef(dst', hd'[a[2]]) /\ Den(dst', hd'[a[2]]) = Den(src, ValOf(hs, a[3]))     \* same function, by name
        /\ src' = src                                                                    \* the source is untouched
        /\ \A k \in Slots : hd[k] # 0 => (IsRef(dst', hd[k]) /\ Den(dst', hd[k]) = Den(dst, hd[k]))
+  ELSE IF a[1] = "dddmp"
+  THEN \* the loaded roots denote, by name, exactly the functions of the dumped roots
+       (\A r \in a[3] : IsRef(dst', r)) /\ {Den(dst', r) : r \in a[3]} = {Den(src, r) : r \in a[2]}
   ELSE TRUE
 StepContract == [][StepOK]_vars
 =============================================================================
